@@ -361,6 +361,25 @@ func TestC07Decoded(t *testing.T) {
 		if pn := guard.Try(func() { enc = ir.Info.Encode() }); pn != nil {
 			t.Skip("not encodable (C08)")
 		}
+		if rapid.IntRange(0, 2).Draw(t, "extensionForm") == 0 {
+			// the same table with every lookup spelled through extension
+			// subtables, mostly valid, sometimes with a hostile record
+			// (extension of an extension, record pointing at itself, ...)
+			hostile := rapid.Bool().Draw(t, "extHostile")
+			if e2, ok := lookups.Extensionize(enc, kind, lookups.ExtOptions{Hostile: func(label string, n int) int {
+				if !hostile || rapid.IntRange(0, 3).Draw(t, label+"Dev") != 0 {
+					return 0
+				}
+				return rapid.IntRange(0, n-1).Draw(t, label)
+			}}); ok {
+				enc = e2
+				if hostile {
+					stats.Label("decoded", "extension-form-hostile")
+				} else {
+					stats.Label("decoded", "extension-form")
+				}
+			}
+		}
 		data := mutate(t, enc)
 		var info, info2 *gtab.Info
 		var err error
